@@ -8,7 +8,9 @@
 // the default template arguments (std::less, aliases d_ary_heap / d_ary_addressable_int_heap), <rev> = 3 (dary) runs
 // heap-owning keys (moved-from / mixed-up elements show in their tag).
 //   dary <arity> <rev> ops...        ops: P,k,p (push const&)  PR,k,p (push &&)  O (pop)  OX (extract_top)  S,k,p  UA
-//                                         B,k:p;.. (build_heap const vector&)  Bi,.. (iterator range)  Bm,.. (vector&&)
+//                                         PT (push(top()): argument aliases heap storage)  PTR (same after shrinking capacity to size)
+//                                         B,k:p;.. (build_heap const vector&)  Bm (vector&&)  Bi/Bp/Bq (random access)  Bl (list)
+//                                         Bf (forward_list)  Bs (single-pass input iterators)
 //                                         C  D(rain)  V,n (reserve)  Y (copy ctor+assign round trip)  Z (move round trip)
 //   addr <arity> <rev> <kt> <nk> ops...   the same plus  R,k (remove)  U,k,p (update; inserts an absent key)
 // P (addr), R and O are skipped (observation still printed) when their precondition does not hold.
@@ -16,9 +18,13 @@
 #include <cstdint>
 #include <cstdio>
 #include <cstdlib>
+#include <deque>
+#include <forward_list>
 #include <fstream>
 #include <iostream>
+#include <iterator>
 #include <limits>
+#include <list>
 #include <set>
 #include <sstream>
 #include <string>
@@ -73,6 +79,39 @@ template <typename H>
 static H fresh(std::false_type) { return H(); }
 template <typename H>
 static H fresh() { return fresh<H>(std::is_constructible<H, TabLess>()); }
+
+// A genuine single-pass input range (like std::istream_iterator): all copies share one cursor, so a second traversal
+// (std::distance followed by a copy, ...) finds the range exhausted.
+static bool g_onepass_abuse = false;
+template <typename K>
+struct OnePass {
+    using iterator_category = std::input_iterator_tag;
+    using value_type = K; using difference_type = std::ptrdiff_t; using pointer = const K*; using reference = const K&;
+    const std::vector<K>* src; size_t* pos;       // pos == nullptr: end sentinel
+    OnePass() : src(nullptr), pos(nullptr) {}
+    OnePass(const std::vector<K>* s, size_t* p) : src(s), pos(p) {}
+    bool at_end() const { return pos == nullptr || *pos >= src->size(); }
+    reference operator*() const { static const K dflt = K(); if (at_end()) { g_onepass_abuse = true; return dflt; } return (*src)[*pos]; }
+    OnePass& operator++() { if (at_end()) g_onepass_abuse = true; else ++*pos; return *this; }
+    OnePass operator++(int) { OnePass t(*this); ++*this; return t; }
+    bool operator==(const OnePass& o) const { return at_end() == o.at_end(); }
+    bool operator!=(const OnePass& o) const { return !(*this == o); }
+};
+
+// build_heap through every kind of range: B const vector&, Bm vector&&, Bi vector iterators (random access),
+// Bp raw pointers, Bq deque (random access, not contiguous), Bl list (bidirectional), Bf forward_list (forward),
+// Bs single-pass input iterators
+template <typename H, typename K>
+static void build_by(H& h, const std::string& how, const std::vector<K>& keys) {
+    if (how == "B") h.build_heap(keys);
+    else if (how == "Bm") { std::vector<K> tmp(keys); h.build_heap(std::move(tmp)); }
+    else if (how == "Bi") h.build_heap(keys.begin(), keys.end());
+    else if (how == "Bp") h.build_heap(keys.data(), keys.data() + keys.size());
+    else if (how == "Bq") { std::deque<K> c(keys.begin(), keys.end()); h.build_heap(c.begin(), c.end()); }
+    else if (how == "Bl") { std::list<K> c(keys.begin(), keys.end()); h.build_heap(c.begin(), c.end()); }
+    else if (how == "Bf") { std::forward_list<K> c(keys.begin(), keys.end()); h.build_heap(c.begin(), c.end()); }
+    else { size_t pos = 0; h.build_heap(OnePass<K>(&keys, &pos), OnePass<K>()); }
+}
 
 struct Op { std::string name; std::vector<long> f; std::vector<std::pair<long, long>> kps; };
 
@@ -136,6 +175,7 @@ static void run_dary(const std::vector<Op>& ops, std::ostringstream& out) {
         out << ch.size() << ':';
         if (ch.empty()) out << '-'; else out << id_of(ch.top());
         out << ':' << (sane ? 1 : 0);
+        if (g_onepass_abuse) { note(i, "input-range-traversed-twice"); g_onepass_abuse = false; }
         if (ch.size() != ref.size() || ch.empty() != ref.empty() || ch.capacity() < ch.size()) note(i, "size");
         else if (!ch.empty() && !intact(ch.top())) note(i, "moved-from-key");
         else if (!dirty && !ch.empty() && (!ref.count(id_of(ch.top())) || !is_extreme(ref.begin(), ref.end(), prio_of(id_of(ch.top()))))) note(i, "top-not-min");
@@ -151,6 +191,16 @@ static void run_dary(const std::vector<Op>& ops, std::ostringstream& out) {
             if (o.name == "P") h.push(k); else h.push(std::move(k));      // const& / && overload
             ref.insert(o.f[0]);
         }
+        else if (o.name == "PT" || o.name == "PTR") {
+            // the argument ALIASES the heap's own storage: push(top()); PTR first shrinks capacity() to size() (a copy
+            // allocates exactly size() slots, the moves keep that buffer), so the push has to reallocate
+            if (!ref.empty() && h.size()) {
+                if (o.name == "PTR") { H c(h); H e2(std::move(c)); h = std::move(e2); }
+                uint32_t t = static_cast<uint32_t>(id_of(h.top()));
+                h.push(h.top());
+                ref.insert(t);
+            }
+        }
         else if (o.name == "O" || o.name == "OX") { if (!ref.empty() && h.size()) do_pop(i, o.name == "OX"); }
         else if (o.name == "S") { set_prio(o.f[0], o.f[1]); dirty = true; }
         else if (o.name == "UA") { h.update_all(); dirty = false; }
@@ -158,9 +208,7 @@ static void run_dary(const std::vector<Op>& ops, std::ostringstream& out) {
             std::vector<Key> keys;
             ref.clear();
             for (auto& kp : o.kps) { set_prio(kp.first, kp.second); keys.push_back(make_key<Key>(kp.first)); ref.insert(kp.first); }
-            if (o.name == "B") h.build_heap(keys);                               // const vector&
-            else if (o.name == "Bi") h.build_heap(keys.begin(), keys.end());     // iterator range
-            else { std::vector<Key> tmp(keys); h.build_heap(std::move(tmp)); }   // vector&&
+            build_by(h, o.name, keys);
             dirty = false;
         }
         else if (o.name == "C") { h.clear(); ref.clear(); dirty = false; }
@@ -202,6 +250,7 @@ static void run_addr(const std::vector<Op>& ops, size_t nk, std::ostringstream& 
             if (c != (ref.count(static_cast<KT>(k)) != 0)) mem_ok = false;
         }
         if (ch.contains(std::numeric_limits<KT>::max())) mem_ok = false;     // not_present() itself is never a member
+        if (g_onepass_abuse) { note(i, "input-range-traversed-twice"); g_onepass_abuse = false; }
         if (ch.size() != ref.size() || ch.empty() != ref.empty() || ch.capacity() < ch.size()) note(i, "size");
         else if (!mem_ok) note(i, "contains");
         else if (!dirty && !ch.empty() && (!ref.count(ch.top()) || !is_extreme(ref.begin(), ref.end(), prio_of(ch.top())))) note(i, "top-not-min");
@@ -228,9 +277,7 @@ static void run_addr(const std::vector<Op>& ops, size_t nk, std::ostringstream& 
         else if (o.name[0] == 'B') {
             std::vector<KT> keys;
             for (auto& kp : o.kps) { set_prio(kp.first, kp.second); keys.push_back(static_cast<KT>(kp.first)); }
-            if (o.name == "B") h.build_heap(keys);                               // const vector&
-            else if (o.name == "Bi") h.build_heap(keys.begin(), keys.end());     // iterator range
-            else { std::vector<KT> tmp(keys); h.build_heap(std::move(tmp)); }    // vector&&
+            build_by(h, o.name, keys);
             ref.clear(); ref.insert(keys.begin(), keys.end()); dirty = false;
         }
         else if (o.name == "C") { h.clear(); ref.clear(); dirty = false; }
